@@ -34,6 +34,7 @@ type ConvCase struct {
 	LNil       bool
 	X          *LDur // X509 block: nil = no block
 	XNoDur     bool  // X509 block without Durations
+	XOff       bool  // X509 block with Enabled = false (the flag is not consulted when durations are read)
 	S          *bool // Ssh block: nil = none, else Enabled
 	SU, SH     *LDur
 }
@@ -157,7 +158,7 @@ func lclaimsS(l *linkedca.Claims) string {
 	}
 	x, s := "-", "-"
 	if l.X509 != nil {
-		x = "X" + dd(l.X509.Durations)
+		x = "X" + c.B(l.X509.Enabled) + dd(l.X509.Durations)
 	}
 	if l.Ssh != nil {
 		s = "S" + c.B(l.Ssh.Enabled) + ";" + dd(l.Ssh.UserDurations) + ";" + dd(l.Ssh.HostDurations)
@@ -225,7 +226,7 @@ func (k *ConvCase) run() (line, impl string) {
 	if !k.LNil {
 		lc = &linkedca.Claims{}
 		if k.X != nil || k.XNoDur {
-			lc.X509 = &linkedca.X509Claims{Enabled: true}
+			lc.X509 = &linkedca.X509Claims{Enabled: !k.XOff}
 			if !k.XNoDur {
 				lc.X509.Durations = ldur(k.X)
 			}
@@ -329,6 +330,7 @@ func genConv(r *c.Rng) *Case {
 		if r.Chance(3, 4) {
 			k.X = genLDur(r)
 			k.XNoDur = k.X == nil && r.Chance(1, 2)
+			k.XOff = r.Chance(1, 3)
 		}
 		if r.Chance(2, 3) {
 			b := r.Chance(2, 3)
@@ -357,6 +359,12 @@ func cornerConv() []*Case {
 	out = append(out, &Case{Conv: &ConvCase{Dir: "validate", Type: "JWK", S: &t, SU: &LDur{"", "", "-1h0m0s"}}})
 	out = append(out, &Case{Conv: &ConvCase{Dir: "validate", Type: "JWK", X: &LDur{"2h0m0s", "1h0m0s", ""}}})
 	out = append(out, &Case{Conv: &ConvCase{Dir: "validate", Type: "JWK", X: &LDur{"2h0m0s", "", "1h0m0s"}}})
+	// linkedca blocks whose Enabled flag is false but that carry durations (admin client that leaves the flag out)
+	for _, typ := range convTypes {
+		out = append(out, &Case{Conv: &ConvCase{Dir: "l2c", Type: typ, XOff: true, X: &LDur{"10m0s", "2h0m0s", "1h0m0s"}}})
+		out = append(out, &Case{Conv: &ConvCase{Dir: "l2c2l", Type: typ, XOff: true, X: &LDur{"", "2h0m0s", ""}, S: &f, SU: &LDur{"", "3h0m0s", ""}, SH: &LDur{"1m0s", "", ""}}})
+	}
+	out = append(out, &Case{Conv: &ConvCase{Dir: "validate", Type: "JWK", XOff: true, X: &LDur{"", "24h0m0s", "48h0m0s"}}})
 	out = append(out, &Case{Conv: &ConvCase{Dir: "c2l2c", Type: "JWK"}})
 	out = append(out, &Case{Conv: &ConvCase{Dir: "l2c", Type: "JWK", LNil: true}})
 	out = append(out, &Case{Conv: &ConvCase{Dir: "l2c", Type: "ACME", X: &LDur{"abc", "", ""}}})
